@@ -97,6 +97,13 @@ class OwnAnalysis:
         self.maybe_null_funcs = set(maybe_null_funcs)
         self.track_fields = set(track_fields)
         self.err_vars = set(err_vars)
+        # every local of the error type / every int local that receives a call result can carry a verdict
+        for name, d in fn.local_decls().items():
+            if d.get("ct") in ("enum econf_err",):
+                self.err_vars.add(name)
+        for n in fn.nodes:
+            if n.k == "DeclRefExpr" and n.j.get("ct") == "enum econf_err" and n.j.get("dk") == "local":
+                self.err_vars.add(n.j["name"])
         self.findings = {}
         self.exit_states = []      # (return node, state)
         self.entry_out = entry_out
@@ -413,9 +420,11 @@ class OwnAnalysis:
                 if not (r.k == "CallExpr" and r.j.get("callee") in self.summaries):
                     cv = rhs.const_value()
                     if r.k == "DeclRefExpr" and r.j.get("dk") == "enum":
-                        st.facts[lv] = "Z" if r.j.get("val") == 0 else (r.j["name"] if r.j["name"] == "ECONF_NOFILE" else "NZ")
+                        st.facts[lv] = "Z" if r.j.get("val") == 0 else (r.j["name"] if r.j["name"] in ("ECONF_NOFILE", "ECONF_NOMEM") else "NZ")
                     elif cv is not None:
                         st.facts[lv] = "Z" if cv == 0 else "NZ"
+                    elif r.k == "DeclRefExpr" and render(r) in st.facts:
+                        st.facts[lv] = st.facts[render(r)]        # copy of another verdict variable
                     elif r.k == "CallExpr":
                         st.facts.pop(lv, None)
                     else:
@@ -454,7 +463,9 @@ class OwnAnalysis:
                 if d.get("init", -1) >= 0 and d["name"] in self.err_vars:
                     init = self.fn.nodes[d["init"]].strip()
                     if init.k == "DeclRefExpr" and init.j.get("dk") == "enum":
-                        st.facts[d["name"]] = "Z" if init.j.get("val") == 0 else (init.j["name"] if init.j["name"] == "ECONF_NOFILE" else "NZ")
+                        st.facts[d["name"]] = "Z" if init.j.get("val") == 0 else (init.j["name"] if init.j["name"] in ("ECONF_NOFILE", "ECONF_NOMEM") else "NZ")
+                    elif init.k == "DeclRefExpr" and render(init) in st.facts:
+                        st.facts[d["name"]] = st.facts[render(init)]
                     elif not (init.k == "CallExpr" and init.j.get("callee") in self.summaries):
                         st.facts.pop(d["name"], None)
             return [st]
@@ -651,6 +662,8 @@ class OwnAnalysis:
         node = ret if ret is not None else (self.cfg.blocks[b].elems[-1] if self.cfg.blocks[b].elems else self.fn.body)
         if ret is not None and query.returned_constant(ret) == "ECONF_NOMEM":
             return          # allocation failure is outside the fault list (DESIGN 0.4)
+        if ret is not None and ret.children and st.facts.get(render(ret.children[0])) == "ECONF_NOMEM":
+            return
         # cleanup-attribute variables are released by the compiler
         for v in self.cleanup:
             obj = st.env.get(v)
